@@ -233,6 +233,62 @@ void t_cfg(Src &s, Case &c)
     run_cfg(s, c, a, payload, second);
 }
 
+// Mostly plain payloads: ordinary text / zeros of 100..300 bytes (127..129 and 255..257 over-weighted) with no, one or two
+// marker bytes at drawn places (the very first, the very last, the last but one, the middle, anywhere).
+Bytes gen_sparse_payload(Src &s, Case &c, const Alphabet &a)
+{
+    size_t n = s.coin() ? (size_t)s.pick<uint32_t>({127, 128, 129, 130, 192, 255, 256, 257}) : (size_t)s.range(100, 300);
+    uint8_t fill = s.pick<uint8_t>({'a', 'x', 0x00, 0x20, 0xFF, 0x55});
+    if (fill == a.start || fill == a.stop || fill == a.stub)
+        fill = 'a';
+    Bytes p(n, fill);
+    if (s.coin())
+        for (size_t i = 0; i < n; i++)
+            p[i] = (uint8_t)('a' + (i * 7) % 23);
+    const uint8_t marks[3] = {a.start, a.stop, a.stub};
+    int k = (int)s.below(3);
+    for (int j = 0; j < k; j++)
+    {
+        size_t at;
+        switch (s.below(5))
+        {
+        case 0:
+            at = 0;
+            break;
+        case 1:
+            at = n - 1;
+            break;
+        case 2:
+            at = n - 2;
+            break;
+        case 3:
+            at = n / 2;
+            break;
+        default:
+            at = (size_t)s.below(n);
+        }
+        p[at] = marks[s.below(3)];
+        c.label(at == n - 1 ? "marker_last" : at == 0 ? "marker_first" : "marker_inside");
+    }
+    if (k == 0)
+        c.label("no_marker");
+    return p;
+}
+void t_cfg_sparse(Src &s, Case &c)
+{
+    bool v0 = s.coin();
+    const Alphabet &a = v0 ? kV0 : kV1;
+    c.label(v0 ? "alphabet_v0" : "alphabet_v1");
+    Bytes payload = gen_sparse_payload(s, c, a);
+    Case dummy;
+    dummy.want_desc = false;
+    Bytes second = gen_payload(s, dummy, a, 40);
+    c.log("%s sparse payload[%zu]=%s ... %s", v0 ? "v0" : "v1", payload.size(), hexdump(payload.data(), 8, 8).c_str(),
+          hexdump(payload.data() + payload.size() - 8, 8, 8).c_str());
+    c.nontrivial = true;
+    run_cfg(s, c, a, payload, second);
+}
+
 void t_cfg_bigcap(Src &s, Case &c)
 {
     BigCap bc;
@@ -400,6 +456,9 @@ void t_enum(Src &s, Case &c)
 VP_TARGET("gstuff_cfg_resume", t_cfg_resume,
           "configurable codec, alphabet v1: an encoded frame cut off at any byte (half of the time right behind an escape byte) followed, in the same receiver, "
           "by the complete frame of another payload — which must be delivered on its last byte with exactly its payload; non-trivial = at least two bytes of the first frame were fed");
+VP_TARGET("gstuff_cfg_sparse", t_cfg_sparse,
+          "configurable codec on mostly plain payloads of 100..300 bytes (127..130, 192, 255..257 over-weighted): one fill byte or running text with 0..2 marker bytes at the first, "
+          "last, last-but-one, middle or a drawn position; encoders, iovec partitions, self-sizing overloads and receiver as in gstuff_cfg");
 VP_TARGET("gstuff_cfg_bigcap", t_cfg_bigcap,
           "configurable codec with receiver capacities 65535, 65536, 65537, 65538, 70000, 131072, 131073, 196608 (larger than 16 bits hold): "
           "payloads 0..300 as in gstuff_cfg, one in six stretched to 65500..66100 bytes; same oracle");
